@@ -503,6 +503,8 @@ func runC20(c *Check, w *World) {
 	iv := newIVWithTables(w, tb, ef)
 	sent := sentinelErrors(w, tb, ef)
 
+	fieldResolver = func(t *Term) *Term { return throughResultField(w, tb, t) }
+	defer func() { fieldResolver = nil }()
 	// ---- R20.1 export table ------------------------------------------------------------------------
 	regs := jsRegistrations(w, tb)
 	exp, lines, err := jsExportTable()
@@ -604,7 +606,7 @@ func runC20(c *Check, w *World) {
 		roleOf := map[string]string{"github.com/ja7ad/otp.DecodeSecret": "secret", "github.com/ja7ad/otp.DigitsFromStr": "digits", "github.com/ja7ad/otp.AlgorithmFromStr": "algo"}
 		for callee, wantName := range roleOf {
 			for _, h := range tb.Reach(f, MatchCallee(callee), 4) {
-				a := h.Args[0]
+				a := throughResultField(w, tb, h.Args[0])
 				ok := false
 				got := ""
 				for _, alt := range a.Alts() {
@@ -653,6 +655,17 @@ func runC20(c *Check, w *World) {
 	}
 	// ---- R20.6 number coercion ------------------------------------------------------------------------------
 	ruleJSNumberCoercion(c, w, "R20.6")
+	// every argument error is answered: no parse error is overwritten by the next argument's parse
+	{
+		var wf []*ssa.Function
+		for _, g := range w.ModuleFuncs(WasmPath) {
+			if g.Blocks != nil {
+				wf = append(wf, g)
+			}
+		}
+		sortFuncs(wf)
+		ruleErrorsUsed(c, w, "R20.5", append(wf, der, vw))
+	}
 	ruleWasmKey(c, w, tb, "R20.8", regs, "generateHOTP", "generateTOTP", "validateHOTP", "validateTOTP")
 	ruleNoPkgState(c, w, tb, ef, "R20.H", append(w.ModuleFuncs(WasmPath), der, vw))
 	c.Floor("R20.1", 10)
@@ -865,6 +878,12 @@ func bindingCounterKind(t *Term) string {
 	for t.Op == "conv" && len(t.Args) == 1 {
 		t = t.Args[0]
 	}
+	if fieldResolver != nil {
+		t = fieldResolver(t)
+		for t.Op == "conv" && len(t.Args) == 1 {
+			t = t.Args[0]
+		}
+	}
 	kinds := map[string]bool{}
 	for _, a := range t.Alts() {
 		for a.Op == "conv" && len(a.Args) == 1 {
@@ -929,6 +948,30 @@ func wasmCompareCore(c *Check, w *World, tb *TB, pfx string, vw, der *ssa.Functi
 		}
 	}
 	checkCompareCore(c, w, tb, pfx, vw, codeP, func(h Hit, exp *Term) string {
+		// the derivation may be called through a closure handed to a shared comparing helper (validate(code, n, func…))
+		for k := 0; k < 4; k++ {
+			if exp.Op == "extract" && exp.Args[0].Op == "call" {
+				if cl, ok := exp.Args[0].Val.(*ssa.Call); ok && cl.Call.StaticCallee() == der {
+					break
+				}
+			}
+			n := tb.Expand(exp, 1)
+			if n == exp {
+				break
+			}
+			exp = n
+		}
+		if exp.Op == "phi" { // error paths return "" as well
+			var calls []*Term
+			for _, a := range exp.Alts() {
+				if !a.IsConst() {
+					calls = append(calls, a)
+				}
+			}
+			if len(calls) == 1 {
+				exp = calls[0]
+			}
+		}
 		if exp.Op != "extract" || exp.Sym != "0" || exp.Args[0].Op != "call" {
 			return "expected code is not the derivation's first result: " + clip(normT(exp), 160)
 		}
@@ -1039,4 +1082,44 @@ func ruleWasmKey(c *Check, w *World, tb *TB, rule string, regs map[string]*ssa.F
 			c.Decide(ok, rule, "wasm."+n, "hmac-key", "the HMAC key is DecodeSecret(secret)#0", "the HMAC key behind "+n+" is "+clip(normT(k), 200)+": the binding decodes the secret differently from the native operation", w.InstrPos(h.Call))
 		}
 	}
+}
+
+// fieldResolver is set by runC20 to throughResultField with its world and term builder.
+var fieldResolver func(t *Term) *Term
+
+// throughResultField: t = field(F; r) where r is the (first) result of a call of a module helper that returns its
+// findings in a struct (req, err := parseGenerateArgs(args, "HOTP")): what the helper stores in F on its returns,
+// with the call's arguments bound; zero values of error returns are dropped. Other terms are returned unchanged.
+func throughResultField(w *World, tb *TB, t *Term) *Term {
+	if t.Op != "field" || len(t.Args) != 1 {
+		return t
+	}
+	inner := t.Args[0]
+	if inner.Op == "extract" && inner.Sym == "0" && len(inner.Args) == 1 {
+		inner = inner.Args[0]
+	}
+	cl, ok := inner.Val.(*ssa.Call)
+	if !ok || inner.Op != "call" {
+		return t
+	}
+	g := cl.Call.StaticCallee()
+	if g == nil || !w.InModule(g) || g.Blocks == nil {
+		return t
+	}
+	rs := tb.Results(g, inner.Args, nil, 1)
+	if len(rs) == 0 {
+		return t
+	}
+	ft := tb.fieldOf(rs[0], t.Sym, &Env{Fn: g, Params: inner.Args})
+	var alts []*Term
+	for _, a := range ft.Alts() {
+		if a.Op == "zero" || (a.IsConst() && (a.Sym == `""` || a.Sym == "0")) {
+			continue
+		}
+		alts = append(alts, a)
+	}
+	if len(alts) == 0 {
+		return t
+	}
+	return mkPhi(alts)
 }
